@@ -12,6 +12,7 @@ ID = "C19"
 LEVEL = "exploration"
 TECHNIQUE = ('deterministic simulation, history check by the reference model: row-level audit trace of every emitted stream (redundant entries, missed elisions, missed zero forms, graph starts vs runs, size vs naive baseline)')
 LEVEL_NOTE = ('sampled inputs x presets; audit by the independent decoder')
+OPTIMIZED_EVERY = 25      # every 25th run is executed in a child interpreter started with python -O
 RUNS = {"quick": 50000, "thorough": 1000000}
 RULE = ("row-level audit by the reference decoder of every stream the real writers emit in seeded runs (both "
         "integrations, three physical types, tables from 'constant eviction' to 'never evict'): redundant entry rows, "
@@ -90,11 +91,13 @@ def execute(plan, sim):
         if plan.get("kind") == "grouped":
             from checks import c07
             data = c07.write_grouped(cfg, stmts, cfg["groups"])
+        elif plan.get("kind") == "direct":
+            data, _ = c03.write_direct(cfg, plan["ops"], sim)
         else:
             data = nodes.serialize(cfg, plan["ops"], sim)
     except Exception as e:  # noqa: BLE001
         return [{"clause": "C19.serialize_raised", "sig": {"exc": type(e).__name__}, "msg": f"{type(e).__name__}: {e}"}], None
-    delimited = True if plan.get("kind") == "grouped" else nodes.wrote_delimited(cfg)
+    delimited = True if plan.get("kind") in ("grouped", "direct") else nodes.wrote_delimited(cfg)
     r = refdec.decode_stream(data, delimited, strict=True)
     if not r.ok:
         return [{"clause": "C19.invalid_stream", "sig": {"cls": r.error["cls"]}, "msg": str(r.error)}], None
